@@ -1,6 +1,6 @@
 (* Property C17 — IOTA DIDs are normalised, decomposable, equal iff network and tag agree. *)
 From Coq Require Import List NArith Bool.
-From IdV Require Import Lib.Outcome Did.DidParse Did.IotaDid Proofs.DidProofs Proofs.IotaDidProofs.
+From IdV Require Import Lib.Outcome Did.DidParse Did.IotaDid Proofs.DidProofs Proofs.IotaDidProofs Proofs.DidTotalProofs.
 Import ListNotations.
 Open Scope N_scope.
 
@@ -34,9 +34,38 @@ Proof. exact iota_new_spec. Qed.
 Theorem C17_lowercase : forall s, forallb not_upper (to_lower s) = true.
 Proof. exact to_lower_not_upper. Qed.
 
+(* the other construction routes (try_from_core, TryFrom<CoreDID>, TryFrom<BaseDIDUrl>, serde): whatever they accept has the same shape,
+   is held in lower case, and IotaDID::parse of the same string gives the SAME value *)
+Theorem C17_from_core_shape : forall m i v, iota_from_core (m, i) = Ok v ->
+  m = IOTA /\ tag_ok (iota_tag v) = true /\ net_ok (iota_network v) = true /\ iota_normal v
+  /\ (v = iota_tag v \/ v = iota_network v ++ 58 :: iota_tag v) /\ forallb not_upper v = true
+  /\ v = iota_normalize (map ascii_lower i).
+Proof. exact iota_from_core_shape. Qed.
+Theorem C17_routes_agree : forall s v, iota_try_from_core s = Ok v -> iota_parse s = Ok v.
+Proof. exact iota_try_from_core_agrees. Qed.
+(* the tree before fix e8fe5c5 kept an upper-case tag: not in normal form and unequal to the parsed value *)
+Theorem C17_from_core_pinned_refuted : exists s v, obind (core_did_parse s) iota_from_core_pinned = Ok v /\ forallb not_upper v = false
+  /\ exists w, iota_parse s = Ok w /\ w <> v.
+Proof. exact iota_from_core_pinned_refuted. Qed.
+(* the id of a deserialised IotaDocument: the string itself is the normal form, and parse gives the same value *)
+Theorem C17_document_id_spec : forall s v, iota_doc_id s = Ok v -> iota_parse s = Ok v /\ s = iota_to_string v.
+Proof. exact iota_doc_id_spec. Qed.
+(* the tree before fix 501fee3 accepted "did:iota:iota:0x.." as a document id *)
+Theorem C17_document_id_pinned_refuted : exists s v, iota_doc_id_pinned s = Ok v /\ ~ iota_normal v.
+Proof. exact iota_doc_id_pinned_refuted. Qed.
+(* IotaDID::parse is total *)
+Theorem C17_parse_total : forall s, iota_parse s <> Panic.
+Proof. exact iota_parse_total. Qed.
+
 Print Assumptions C17_shape.
 Print Assumptions C17_eq_iff.
 Print Assumptions C17_accessors_recompose.
 Print Assumptions C17_reparse.
 Print Assumptions C17_new_spec.
 Print Assumptions C17_lowercase.
+Print Assumptions C17_from_core_shape.
+Print Assumptions C17_routes_agree.
+Print Assumptions C17_from_core_pinned_refuted.
+Print Assumptions C17_document_id_spec.
+Print Assumptions C17_document_id_pinned_refuted.
+Print Assumptions C17_parse_total.
